@@ -7,6 +7,7 @@
 package c01
 
 import (
+	"sync"
 	"context"
 	"fmt"
 	"os"
@@ -210,7 +211,12 @@ type cfg struct {
 	Refs     []rng // sync/async only
 	Target   []int // Target[i] = index of the appender reference i points at (usually i)
 	Order    []int // Order[i] = configuration index of reference i
-	Others   int   // competing loggers
+	// Conc: the events are logged by this many goroutines at once (0/1 = one after the other)
+	Conc int
+	// Overflowed (async only): the logger runs with the Discard policy and its buffer has overflowed
+	// before the judged events are logged (which fit into the buffer: none of them is discarded)
+	Overflowed bool
+	Others     int // competing loggers
 	Root     bool
 	Dir      string
 }
@@ -282,6 +288,9 @@ func genCfg(t *rapid.T) cfg {
 	}
 	c.Others = rapid.IntRange(0, 2).Draw(t, "others")
 	c.Root = rapid.Bool().Draw(t, "root")
+	if c.Kind == "async" {
+		c.Overflowed = rapid.IntRange(0, 2).Draw(t, "overflowed") == 0
+	}
 	return c
 }
 
@@ -319,6 +328,9 @@ func (c cfg) toMap(t *rapid.T) map[string]string {
 			m[p+"type"] = "AsyncLogger"
 			m[p+"bufferFullPolicy"] = "Block"
 			m[p+"bufferSize"] = strconv.Itoa(rapid.SampledFrom([]int{100, 128, 10000}).Draw(t, "bufSize"))
+			if c.Overflowed {
+				m[p+"bufferFullPolicy"], m[p+"bufferSize"] = "Discard", "100"
+			}
 		}
 		for i, r := range c.Refs {
 			name := fmt.Sprintf("r%d", i)
@@ -371,7 +383,7 @@ func (c cfg) desc() string {
 	for i, r := range c.Refs {
 		refs = append(refs, fmt.Sprintf("#%d@%d->r%d:%s", i, c.Order[i], c.target(i), r))
 	}
-	return fmt.Sprintf("kind=%s layout=%q async=%v separate=%v logger=%s refs=[%s] others=%d root=%v", c.Kind, c.Layout, c.Async, c.Separate, c.Logger, strings.Join(refs, " "), c.Others, c.Root)
+	return fmt.Sprintf("kind=%s layout=%q async=%v separate=%v logger=%s refs=[%s] others=%d root=%v conc=%d overflowed=%v", c.Kind, c.Layout, c.Async, c.Separate, c.Logger, strings.Join(refs, " "), c.Others, c.Root, c.Conc, c.Overflowed)
 }
 
 // ---------------------------------------------------------------- events
@@ -543,8 +555,37 @@ func runCase(t vk.TB, c cfg, m map[string]string, events []ev) error {
 	var pan any
 	// nothing in these configurations is slow (recording appenders, local files, Block policy
 	// with a running worker): a log call or Destroy that has not returned after 30 s is stuck
+	if c.Overflowed {
+		if err := overflowFirst(c, events); err != nil {
+			log.Destroy()
+			return err
+		}
+	}
 	done, _ := vk.Within(30*time.Second, func() {
+		if c.Conc > 1 {
+			var wg sync.WaitGroup
+			var pmu sync.Mutex
+			for g := 0; g < c.Conc; g++ {
+				wg.Add(1)
+				go func() {
+					defer wg.Done()
+					for i := g; i < len(events); i += c.Conc {
+						if p := vk.Catch(func() { emit(events[i]) }); p != nil {
+							pmu.Lock()
+							if pan == nil {
+								pan = fmt.Sprintf("logging event id=%d via %s panicked: %v", events[i].ID, events[i].Entry, p)
+							}
+							pmu.Unlock()
+						}
+					}
+				}()
+			}
+			wg.Wait()
+		}
 		for _, e := range events {
+			if c.Conc > 1 {
+				break
+			}
 			if p := vk.Catch(func() { emit(e) }); p != nil && pan == nil {
 				pan = fmt.Sprintf("logging event id=%d via %s panicked: %v", e.ID, e.Entry, p)
 			}
@@ -678,6 +719,61 @@ func runCase(t vk.TB, c cfg, m map[string]string, events []ev) error {
 	return nil
 }
 
+// overflowFirst makes the asynchronous logger's buffer overflow (every appender of the logger is
+// stalled while 300 events of an admitted level arrive), lets it drain and forgets what was
+// recorded: the judged events meet a logger that has discarded before.
+func overflowFirst(c cfg, events []ev) error {
+	llo, lhi := c.Logger.bounds()
+	eff := effective(c.Refs)
+	var pre *ev
+	for i := range events {
+		e := events[i]
+		if e.Tag != "a" || e.Entry != "Record" || !contains(llo, lhi, e.Level.code) {
+			continue
+		}
+		for k := range c.Refs {
+			if contains(eff[k][0], eff[k][1], e.Level.code) {
+				pre = &events[i]
+			}
+		}
+	}
+	if pre == nil {
+		return nil // nothing is admitted anywhere: the buffer cannot be filled
+	}
+	gate := vk.NewGate()
+	for k := range c.Refs {
+		vk.SetBehavior(fmt.Sprintf("r%d", k), gate)
+	}
+	if done, _ := vk.Within(20*time.Second, func() {
+		for i := 0; i < 300; i++ {
+			emit(ev{ID: int64(1_000_000 + i), Entry: "Record", Level: pre.Level, Tag: "a"})
+		}
+	}); !done {
+		close(gate.Release)
+		return fmt.Errorf("VERIF-HANG a log call under the Discard policy waited for the stalled appenders")
+	}
+	close(gate.Release)
+	// drained = the record counts have been stable for 30 ms (nothing else is logging)
+	last, stable := -1, time.Now()
+	for deadline := time.Now().Add(20 * time.Second); time.Now().Before(deadline); time.Sleep(2 * time.Millisecond) {
+		n := 0
+		for _, r := range vk.AllRecs() {
+			n += r.Len()
+		}
+		if n != last {
+			last, stable = n, time.Now()
+		} else if time.Since(stable) > 30*time.Millisecond {
+			break
+		}
+	}
+	for k := range c.Refs {
+		vk.SetBehavior(fmt.Sprintf("r%d", k), nil)
+	}
+	vk.ResetRecsKeepLive()
+	vk.Class("async-logger-overflowed-before")
+	return nil
+}
+
 func firstLine(err error) string {
 	s := err.Error()
 	if i := strings.IndexByte(s, '\n'); i >= 0 {
@@ -792,6 +888,53 @@ func TestC01_Generated(t *testing.T) {
 			t.Fatalf("VERIF-VIOLATION C01: %v\nconfig: %s", err, c.desc())
 		}
 		vk.Sample(map[string]any{"config": c.desc(), "events": len(events)})
+	})
+	log.Destroy()
+}
+
+// TestC01_Concurrent: the same configurations, the event list repeated many times with fresh ids
+// and logged by 2-8 goroutines at once, each event at the level of its entry point: which appenders
+// receive an event depends on the event, not on what other goroutines are logging at that moment.
+func TestC01_Concurrent(t *testing.T) {
+	vk.Rule(rule)
+	base := vk.Scratch("c01c")
+	n := 0
+	rapid.Check(t, func(t *rapid.T) {
+		c := genCfg(t)
+		if c.Kind == "console" || c.Kind == "file" {
+			c.Kind = "sync"
+			if len(c.Refs) == 0 {
+				c.Refs, c.Order = []rng{{Min: "INFO"}, {Min: "TRACE", HasMax: true, Max: "WARN"}}, []int{0, 1}
+			}
+		}
+		c.Overflowed = false
+		c.Conc = rapid.SampledFrom([]int{8, 4, 2, 6}).Draw(t, "goroutines")
+		n++
+		c.Dir = filepath.Join(base, strconv.Itoa(n))
+		if c.Kind == "rolling" {
+			_ = os.MkdirAll(c.Dir, 0o755)
+			defer os.RemoveAll(c.Dir)
+		}
+		m := c.toMap(t)
+		reps := rapid.SampledFrom([]int{400, 100, 1000}).Draw(t, "repetitions")
+		var events []ev
+		id := int64(1)
+		for r := 0; r < reps; r++ {
+			for _, ep := range entryOrder {
+				events = append(events, ev{ID: id, Entry: ep, Level: levelByName(entryLevels[ep]), Tag: "a"})
+				id++
+			}
+			for _, l := range []string{"NOTICE", "ALERT", "TOP", "NONE"} {
+				events = append(events, ev{ID: id, Entry: "Record", Level: levelByName(l), Tag: "a"})
+				id++
+			}
+		}
+		vk.Eval()
+		vk.Class("concurrent:kind:" + c.Kind)
+		vk.NonTrivial(fmt.Sprintf("concurrent/%s/%d/%d", c.desc(), c.Conc, reps))
+		if err := runCase(t, c, m, events); err != nil {
+			t.Fatalf("VERIF-VIOLATION C01: %v\nconfig: %s", err, c.desc())
+		}
 	})
 	log.Destroy()
 }
